@@ -284,6 +284,27 @@ func c20Property(t *rapid.T, st *Stats) {
 			i := &c20Inc{key: k, val: next, lastUse: time.Now()}
 			byVal[next] = i
 			if old := live[k]; old != nil {
+				// listed finding: Set on a present key drops the old value without its cleanup (no caller of the cache does
+				// that with a value that needs one)
+				if withFn {
+					if avoid("C20/set-overwrite-no-cleanup") {
+						st.Exclude("C20/set-overwrite-no-cleanup: Set on a key that is present, with a cleanup callback configured")
+					} else {
+						defer func(val int) {
+							hmu.Lock()
+							cleaned := false
+							for j := range ledger {
+								if ledger[j].val == val && ledger[j].ok {
+									cleaned = true
+								}
+							}
+							hmu.Unlock()
+							if !cleaned {
+								fail("set-overwrite-no-cleanup", "set %s=%d replaced %s=%d: the old value left the cache and its cleanup callback never ran successfully for it", k, next, k, val)
+							}
+						}(old.val)
+					}
+				}
 				old.exempt = true
 				classes["overwrite"] = true
 			}
@@ -447,4 +468,17 @@ func c20Property(t *rapid.T, st *Stats) {
 func TestC20(t *testing.T) {
 	st := newStats("TestC20", "C20", c20Rule)
 	bubbleCheck(t, func(rt *rapid.T) { c20Property(rt, st) })
+}
+
+// TestKF_C20_SetOverwriteNoCleanup reproduces the listed finding without the generator.
+func TestKF_C20_SetOverwriteNoCleanup(t *testing.T) {
+	st := newStats("TestKF_C20_SetOverwriteNoCleanup", "C20", "reproducer")
+	cleaned := []int{}
+	c := cache.New[string, int](cache.Opts[string, int]{Count: 10, PruneFn: func(_ string, v int) error { cleaned = append(cleaned, v); return nil }})
+	c.Set("k", 1)
+	c.Set("k", 2)
+	v, err := c.Get("k")
+	if err == nil && v == 2 && len(cleaned) == 0 {
+		Fail(kfT{t}, st, "set-overwrite-no-cleanup", "Set(k,1); Set(k,2): the cache holds k=2, the entry k=1 is gone and its cleanup callback never ran", []string{"Set(k,1)", "Set(k,2)", "Get(k)"}, nil)
+	}
 }
